@@ -492,7 +492,7 @@ func replayOne(t *testing.T, rf *vstat.ReplayFile) string {
 		if _, err := runContainment(&tc); err != nil {
 			return err.Error()
 		}
-	case rf.Part == "inflight":
+	case rf.Part == "inflight" || rf.Part == "multiremove":
 		var sc ConcScenario
 		if err := json.Unmarshal(rf.Scenario, &sc); err != nil {
 			return "bad scenario: " + err.Error()
